@@ -284,6 +284,10 @@ def main():
     t = head + "Inductive holding := Scoped | FinallyClosed | Unscoped.\nDefinition scoping : list (string * string * string * holding) := [\n" + ";\n".join(
         "  (%s, %s, %s, %s)" % (q(m), q(f), q(p), h) for m, f, p, h, ln in scopes) + "\n].\n"
     write_if_changed(os.path.join(GEN, "Scoping.v"), t)
+    # the translated source of the simple loop tools (Gen/PylSrc.v)
+    sys.path.insert(0, os.path.dirname(os.path.abspath(__file__)))
+    import translate
+    translate.translate()
     return 0
 
 
